@@ -11,7 +11,7 @@ EXPLANATION = (
     'reachable from serve() is labelled from its provenance; a request-derived string reaches a sink only through the Some payload of safe_join '
     '(and the tabled safe derivations parent / suffix push / tmp_of), everything else derives from the served root only; (R2) safe_join returns '
     'Some only on the false edge of is_absolute() and after the component loop is exhausted, and the ParentDir, RootDir and Prefix components each lead '
-    'to None; the joined value is root.join(rel); (R3) a refused Put drains exactly take(len) before the error reply, refused Get/Delete reply without '
+    'to None; the joined value is root.join(rel); an fs mutator applied to the ancestors of a request path (pruning emptied directories) must be limited by the number of Path components - a limit computed from the text of the path (`/` count) climbs past the root for `a//////f`; (R3) a refused Put drains exactly take(len) before the error reply, refused Get/Delete reply without '
     'consuming, and all three return the reply result to the loop; (R4) no fs call is reachable on the refusal edge.')
 ASSUMPTIONS = ['Path::components / is_absolute classify components as documented', 'no symlinks leading outside the served tree (property quantifier)']
 
